@@ -1,7 +1,9 @@
 ------------------------------ MODULE MC_Shutdown ------------------------------
 EXTENDS Shutdown
 NoDev == {}
-AllDev == {"UnwrapSharedContext", "JoinBlockedInAccept", "SessionIgnoresFlag", "SignalPanicsDebugThread"}
+AllDev == {"UnwrapSharedContext", "JoinBlockedInAccept", "SessionIgnoresFlag", "SignalPanicsDebugThread", "BusyStepBlocksJoin"}
+BusyDev == {"BusyStepBlocksJoin"}
+RendezvousDev == AllDev \cup {"RendezvousSignal"}
 SelectDev == {"SignalPanicsDebugThread"}
 NoUnwrapDev == {"JoinBlockedInAccept", "SessionIgnoresFlag"}
 LateDev == {"SessionIgnoresFlag"}
